@@ -138,6 +138,14 @@ M = [
   "                mtfmap.copy_within(0..idx, 1);", "                mtfmap.copy_within(0..=idx, 1);"),
  ("c04_cluster_count_from_len", "C04", "R-CLUSTER-MAP", "crates/jxl-coding/src/lib.rs",
   "    let num_clusters = *cluster.iter().max().unwrap() as u32 + 1;", "    let num_clusters = *cluster.iter().max().unwrap() as u32 + 1;\n    let num_clusters = num_clusters.max(2).min(num_dist);"),
+ ("c01_hybrid_sum_check_relaxed", "C01", "R-HYBRID-CONFIG", "crates/jxl-coding/src/lib.rs",
+  "        if lsb_in_token + msb_in_token > split_exponent {", "        if lsb_in_token + msb_in_token > split_exponent + 1 {"),
+ ("c01_hybrid_msb_check_relaxed", "C01", "R-HYBRID-CONFIG", "crates/jxl-coding/src/lib.rs",
+  "            if msb_in_token > split_exponent {", "            if msb_in_token > split_exponent + 1 {"),
+ ("c17_scaninfo_reset_bound_relaxed", "C17", "R-JBR-SCANINFO", "crates/jxl-jbr/src/lib.rs",
+  "                if block_idx > (3 << 26) {\n                    tracing::error!(value = block_idx, \"reset_points too large\");", "                if block_idx > (3 << 27) {\n                    tracing::error!(value = block_idx, \"reset_points too large\");"),
+ ("c17_scaninfo_run_bound_relaxed", "C17", "R-JBR-SCANINFO", "crates/jxl-jbr/src/lib.rs",
+  "                if block_idx > (3 << 26) {\n                    tracing::error!(block_idx, \"extra_zero_runs.block_idx too large\");", "                if block_idx >= (3 << 26) + 2 {\n                    tracing::error!(block_idx, \"extra_zero_runs.block_idx too large\");"),
  ("c04_hybrid_msb_width", "C04", "R-HYBRID-CONFIG", "crates/jxl-coding/src/lib.rs",
   "            let msb_bits = add_log2_ceil(split_exponent) as usize;", "            let msb_bits = add_log2_ceil(log_alphabet_size) as usize;"),
  ("c10_nomoreaux_jxlp_last", "C10", "R-NOMOREAUX", "crates/jxl-bitstream/src/container/parse.rs",
